@@ -437,7 +437,7 @@ class Balance:
                                     self.lost.append((t_, moved[t_], e))
                 if returns_owned(c) and e.res != ("void",):
                     acquire(e.res, "returned by %s" % c, e)
-            elif e.kind == "ret":
+            elif e.kind == "ret" and e.depth == 0:
                 r = res(e.res) if e.res is not None else None
                 if r in bal:
                     bump(r, -1, "returned to the caller", e)
